@@ -8,6 +8,8 @@ import (
 	"path/filepath"
 	"sort"
 	"strings"
+
+	"github.com/google/mtail/internal/metrics"
 )
 
 // C26 — program directory scanning loads exactly the eligible files.
@@ -20,15 +22,19 @@ import (
 func init() { register("C26", propC26) }
 
 type c26File struct {
-	version int  // content version written last
-	broken  bool // that content does not compile
+	version int // content version written last
+	broken  int // 0: fine; 1: that content does not compile; 2: it compiles but its registration is refused (metric kind clash)
 }
 
 // Every version of every file declares the same metric at the same place and
 // counts into its own label, so the counts survive reloads.
-func c26Source(name string, v int, broken bool) string {
-	if broken {
+func c26Source(name string, v int, broken int) string {
+	switch broken {
+	case 1:
 		return fmt.Sprintf("counter ver by v\n/./ {\n  ver[\"v%d\"]++\n", v) // missing brace
+	case 2:
+		// compiles, but "clash" is held as a counter by another program: the load is refused at registration
+		return fmt.Sprintf("counter ver by v\ngauge clash\n/./ {\n  ver[\"v%d\"]++\n  clash = 1\n}\n", v)
 	}
 	return fmt.Sprintf("counter ver by v\n/./ {\n  ver[\"v%d\"]++\n}\n", v)
 }
@@ -45,7 +51,17 @@ func propC26(e *Env) {
 	files := map[string]*c26File{}   // what is on disk (regular files directly in dir)
 	removed := map[string]*c26File{} // the content a file had when it was last removed
 	nextV := map[string]int{}
-	writeFile := func(name string, broken bool) {
+	// in half of the runs a metric of another program occupies the name "clash" as a counter, and a
+	// "broken" edit may then also be one that compiles but is refused at registration
+	withClash := e.Bool("gen")
+	brokenKind := func() int {
+		if withClash && e.Bool("gen") {
+			e.Probe("edit_refused_at_registration")
+			return 2
+		}
+		return 1
+	}
+	writeFile := func(name string, broken int) {
 		nextV[name]++
 		files[name] = &c26File{version: nextV[name], broken: broken}
 		os.WriteFile(filepath.Join(dir, name), []byte(c26Source(name, nextV[name], broken)), 0o644)
@@ -53,14 +69,18 @@ func propC26(e *Env) {
 	// initial content
 	for _, n := range names[:5] {
 		if e.Choose("gen", 3) != 0 {
-			writeFile(n, e.Choose("gen", 6) == 0)
+			if e.Choose("gen", 6) == 0 {
+				writeFile(n, brokenKind())
+			} else {
+				writeFile(n, 0)
+			}
 		}
 	}
 	os.Mkdir(filepath.Join(dir, "sub"), 0o755)
-	os.WriteFile(filepath.Join(dir, "sub", "inner.mtail"), []byte(c26Source("inner.mtail", 1, false)), 0o644)
+	os.WriteFile(filepath.Join(dir, "sub", "inner.mtail"), []byte(c26Source("inner.mtail", 1, 0)), 0o644)
 	if e.Bool("gen") {
 		os.Mkdir(filepath.Join(dir, "d.mtail"), 0o755) // a directory *named* like a program
-		os.WriteFile(filepath.Join(dir, "d.mtail", "e.mtail"), []byte(c26Source("e.mtail", 1, false)), 0o644)
+		os.WriteFile(filepath.Join(dir, "d.mtail", "e.mtail"), []byte(c26Source("e.mtail", 1, 0)), 0o644)
 		e.Probe("directory_named_like_program")
 	}
 	base := map[string]progCounters{}
@@ -82,7 +102,7 @@ func propC26(e *Env) {
 				continue
 			}
 			w := want[n]
-			if f.broken {
+			if f.broken != 0 {
 				w.loadErrs++
 			} else if v, ok := running[n]; !ok || v != f.version {
 				running[n] = f.version
@@ -100,7 +120,14 @@ func propC26(e *Env) {
 		}
 	}
 
-	r := newRtRig(e, dir)
+	store := metrics.NewStore()
+	if withClash {
+		if err := store.Add(metrics.NewMetric("clash", "other.mtail", metrics.Counter, metrics.Int)); err != nil {
+			e.Broken("store.Add: %v", err)
+			return
+		}
+	}
+	r := newRtRigStore(e, dir, store)
 	if !r.quiesce() {
 		return
 	}
@@ -194,16 +221,16 @@ func propC26(e *Env) {
 		var desc string
 		switch e.Choose("gen", 8) {
 		case 0, 1:
-			writeFile(n, false)
+			writeFile(n, 0)
 			desc = fmt.Sprintf("write %s v%d", n, nextV[n])
 			e.Probe("edit_valid")
 		case 2:
-			writeFile(n, true)
-			desc = fmt.Sprintf("write %s v%d (broken)", n, nextV[n])
+			writeFile(n, brokenKind())
+			desc = fmt.Sprintf("write %s v%d (broken, kind %d)", n, nextV[n], files[n].broken)
 			e.Probe("edit_broken")
 		case 3:
-			if f, ok := files[n]; ok && f.broken {
-				writeFile(n, false)
+			if f, ok := files[n]; ok && f.broken != 0 {
+				writeFile(n, 0)
 				desc = fmt.Sprintf("restore %s v%d", n, nextV[n])
 				e.Probe("restore")
 			} else {
